@@ -83,8 +83,14 @@ func c14(cx *Ctx, r *ev.Report) {
 		return rules.SuffixMatch("IR")(p) || rules.SuffixMatch("IR", "Lo")(p) || rules.SuffixMatch("IR", "Hi")(p)
 	})
 	rule := "R-WRITERS(IR): every store to SPR.IR (field, half, covering struct, or escaping address) lies in a function interpreted below the decoder, so every write is accounted for by an arm summary"
+	reach := reachableFromStepOrRun(cx)
 	for _, s := range sites {
 		key := fmt.Sprintf("C14/writers/func=%s/%s", s.Fn, s.Path)
+		if !reach[s.Fn] {
+			// a helper the user has to call himself: it cannot act while a program executes
+			r.Hold(key, rule+" (not reachable from Step or Run: acts only when the user calls it)", cx.P.Pos(s.Pos.Pos()), "shape")
+			continue
+		}
 		if below[s.Fn.String()] {
 			r.Hold(key, rule, cx.P.Pos(s.Pos.Pos()), "shape")
 		} else {
